@@ -250,6 +250,23 @@ func c10CheckTriple(res *fw.Result, t c10Triple) {
 	res.Eval("elem/" + string(t.kind) + "/r" + bitClass(t.ref) + "/v" + verClass(t.ver))
 }
 
+// c10Aliens are strings that are not ASCII digits; replace: substituted for one digit,
+// otherwise inserted anywhere in the number (including before and after it).
+var c10Aliens = []struct {
+	class   string
+	s       string
+	replace bool
+}{
+	{"arabic-indic", "\u0663", true}, {"ext-arabic", "\u06f7", true}, {"devanagari", "\u0969", true},
+	{"fullwidth", "\uff15", true}, {"bengali", "\u09ea", true}, {"thai", "\u0e52", true},
+	{"math-bold", "\U0001d7d0", true}, {"superscript", "\u00b2", true}, {"roman", "\u2167", true},
+	{"circled", "\u2460", true}, {"fraction", "\u00bd", true}, {"letter-o", "O", true}, {"letter-l", "l", true},
+	{"tab", "\t", false}, {"newline", "\n", false}, {"cr", "\r", false}, {"space", " ", false},
+	{"nbsp", "\u00a0", false}, {"ideographic-space", "\u3000", false}, {"zero-width", "\u200b", false},
+	{"underscore", "_", false}, {"comma", ",", false}, {"dot", ".", false}, {"exponent", "e1", false},
+	{"nul", "\x00", false}, {"bad-utf8", "\xff", false}, {"bom", "\ufeff", false}, {"minus-inside", "-", false},
+}
+
 var c10Malformed = []struct{ class, s string }{
 	{"no-slash", "node"}, {"no-slash-num", "node123"}, {"empty", ""}, {"two-slash", "node/1/2"},
 	{"two-slash-ver", "way/1/2:3"}, {"empty-ref", "node/"}, {"empty-ref-ver", "node/:3"},
@@ -503,6 +520,48 @@ func c10Exec(c fw.Case) *fw.Result {
 			}
 			if id, err := osm.ParseElementID(mut); err == nil {
 				res.Violatef("C10/reject-element/"+class, "ParseElementID(%q) accepted as %v", mut, id)
+			}
+			res.Eval("reject/" + class)
+		}
+		// one character of the number replaced by, or the number extended with, something that
+		// is not an ASCII digit: decimal digits of other scripts, other numeric runes, white
+		// space of every width, digit separators, exponents, NUL, broken UTF-8
+		for i := 0; i < 300; i++ {
+			k := []osm.Type{osm.TypeNode, osm.TypeWay, osm.TypeRelation}[r.Intn(3)]
+			refS := fmt.Sprint(refs[r.Intn(len(refs))])
+			verS := fmt.Sprint(vers[r.Intn(len(vers))])
+			al := c10Aliens[r.Intn(len(c10Aliens))]
+			inVer := r.Intn(2) == 0
+			tgt := &refS
+			if inVer {
+				tgt = &verS
+			}
+			pos := r.Intn(len(*tgt) + 1)
+			if al.replace && len(*tgt) > 0 {
+				pos = r.Intn(len(*tgt))
+				*tgt = (*tgt)[:pos] + al.s + (*tgt)[pos+1:]
+			} else {
+				if al.s == "-" && pos == 0 {
+					pos = len(*tgt) // a leading sign is grey zone, a trailing one is malformed
+				}
+				*tgt = (*tgt)[:pos] + al.s + (*tgt)[pos:]
+			}
+			class := "gen-alien-" + al.class
+			mut := fmt.Sprintf("%s/%s:%s", k, refS, verS)
+			if id, err := osm.ParseObjectID(mut); err == nil {
+				res.Violatef("C10/reject-object/"+class, "ParseObjectID(%q) accepted as %v", mut, id)
+			}
+			if id, err := osm.ParseElementID(mut); err == nil {
+				res.Violatef("C10/reject-element/"+class, "ParseElementID(%q) accepted as %v", mut, id)
+			}
+			if !inVer {
+				fm := fmt.Sprintf("%s/%s", k, refS)
+				if id, err := osm.ParseFeatureID(fm); err == nil {
+					res.Violatef("C10/reject-feature/"+class, "ParseFeatureID(%q) accepted as %v", fm, id)
+				}
+				if id, err := osm.ParseObjectID(fm); err == nil {
+					res.Violatef("C10/reject-object/"+class, "ParseObjectID(%q) accepted as %v", fm, id)
+				}
 			}
 			res.Eval("reject/" + class)
 		}
